@@ -1,4 +1,9 @@
-"""Per-property metadata used by ./check: coverage rule text, floors, required coverage sets."""
+"""Per-property metadata used by ./check and gen_manifest.py: one JSON file per property under meta/.
+
+keys: technique, level_text, rule, exhaustive_note, distinct_floor{quick,thorough}, required_sets{set:[items]},
+      assumptions[], case_budget_ms, shard_timeout_s{quick,thorough}, max_shards, claimed (default true), na_reason
+"""
+import json, os, glob
 
 COMMON_ASSUME = [
     "the primitive crates (hashes, block ciphers, AEADs, HKDF, Argon2, curves) are correct; the reference in mon/src/rfc composes them independently of pgp",
@@ -6,23 +11,8 @@ COMMON_ASSUME = [
     "harness built in release profile with debug-assertions and overflow-checks (same assertion regime as the repository test-suite)",
 ]
 
-META = {
-    "C14": {
-        "technique": "runtime monitoring: recording signer/verifier digests vs independent RFC canonicalisation, exhaustive small-scope strings x chunkings, hook state coverage",
-        "level_text": "Exploration by runtime monitoring: every string over the 3-class alphabet up to length 7 (quick) / 9 (thorough) under every chunking is pushed through each of the library's canonicalisers while a recording key observes the digest; compared with an independent canonicaliser. Exhaustive for the stated small scope (the code branches only on CR/LF/other and on chunk edges), sampled beyond it.",
-        "rule": "A: every string over {CR,LF,'a'} up to the tier length x every chunking (composition) through SignatureHasher(io::Write) "
-                "and Signature::verify(reader with that read schedule), digest seen by a recording signer/verifier compared with the "
-                "reference digest over canon(s); LiteralData::from_str vs canon. B: every pattern over the alphabet placed at every "
-                "alignment across the 512/1024-byte window edges of NormalizedReader x 4 source schedules x consumer patterns. "
-                "C: every string over {CR,LF,a,0xC3,0xA9,0xE2} x every chunking through the Utf8 literal builder, acceptance compared with "
-                "the predicate valid-UTF-8 and LF-only-after-CR. D: random long texts with CR/LF forced on 512/8192 edges, LF/CRLF/changed variants. "
-                "distinct = distinct input strings/patterns (all non-trivial: each is fed through >=1 library canonicaliser).",
-        "exhaustive_note": "families A, B, C enumerate their stated finite spaces completely; family D is sampled",
-        "distinct_floor": {"quick": 3000, "thorough": 30000},
-        "required_sets": {
-            "hook.norm.hash_buf(last_was_cr,first)": ["0-CR", "0-LF", "0-x", "1-CR", "1-LF", "1-x"],
-            "hook.norm.rd.window.arm": ["CR|LF", "CR|other", "none"],
-        },
-        "assumptions": COMMON_ASSUME,
-    },
-}
+META = {}
+for f in sorted(glob.glob(os.path.join(os.path.dirname(os.path.abspath(__file__)), "meta", "C*.json"))):
+    m = json.load(open(f))
+    m["assumptions"] = COMMON_ASSUME + m.get("assumptions", [])
+    META[os.path.basename(f)[:-5]] = m
